@@ -36,3 +36,14 @@ def run(res, tier):
     res.rule = ("one case = one Kani harness (min-refresh set/unset x expiry set/unset, everything else symbolic); "
                 "non-trivial = SUCCESSFUL with cover witnesses; evaluations = CBMC checks decided")
     run_kani_part(res, SPEC, tier)
+    # the expiry mark_update_done reads is the current run's: SharedHistory::update installs the run's snapshot on
+    # every path (obligation shared with C14)
+    import mprop
+    import c14
+    E = mprop.engine(res)
+    res.engines.append("M: symbolic execution of the MIR of SharedHistory::update (snapshot installed on every path)")
+    before = len(res.violations)
+    c14.check_update_plumbing(res, E, check_install=True)
+    # the other obligations of the update plumbing belong to C14 / C17, not to the scheduling property
+    res.violations = res.violations[:before] + [v for v in res.violations[before:] if v["key"] == "mir:update-keeps-old-snapshot"]
+    mprop.finish_engine(res, E)
